@@ -277,6 +277,12 @@ func genWorld(seed uint64, rich bool) *world {
 				if r.chance(20) {
 					id = 0
 				}
+				if r.chance(30) {
+					// the full uint32 range: extended-frame flag (bit 31), bits 29 and 30, ids that differ only above bit 28
+					base := uint32([]int{0x123, 0x7FF, 0x1ABCDE, r.below(2048)}[r.below(4)])
+					id = acmelib.CANID(base | []uint32{0x80000000, 0x20000000, 0x40000000, 0xE0000000, 0x1FFFF800, 0}[r.below(6)])
+					w.count("msg-static-canid-beyond-29-bits")
+				}
 				if len(sent) > 0 && r.chance(50) {
 					other := sent[r.below(len(sent))]
 					if !other.HasStaticCANID() {
@@ -305,11 +311,22 @@ func genWorld(seed uint64, rich bool) *world {
 				m.SetByteOrder(acmelib.MessageByteOrderBigEndian)
 				w.count("msg-big-endian")
 			}
+			// every optional field independently of the others (all 8 zero / non-zero combinations of cycle time,
+			// delay time and start delay time occur)
 			if r.chance(50) {
-				m.SetCycleTime(r.rangeInt(0, 1000))
+				m.SetCycleTime(r.rangeInt(1, 1000))
+				w.count("msg-cycle-time")
+			}
+			if r.chance(40) {
 				m.SetSendType(acmelib.MessageSendType(r.below(5)))
-				m.SetDelayTime(r.rangeInt(0, 50))
-				m.SetStartDelayTime(r.rangeInt(0, 50))
+			}
+			if r.chance(50) {
+				m.SetDelayTime(r.rangeInt(1, 50))
+				w.count("msg-delay-time")
+			}
+			if r.chance(50) {
+				m.SetStartDelayTime(r.rangeInt(1, 50))
+				w.count("msg-start-delay-time")
 			}
 			for j, k := 0, r.below(3); j < k && len(all) > 0; j++ {
 				rec := all[r.below(len(all))]
@@ -450,12 +467,20 @@ func (w *world) editAfterConstruction() {
 				w.count("edited-message-id")
 			}
 		}
-		if r.chance(25) {
+		if r.chance(20) {
 			m.SetPriority(acmelib.MessagePriority(r.below(4)))
-			m.SetCycleTime(r.rangeInt(1, 5000))
+		}
+		if r.chance(15) {
+			m.SetCycleTime(r.rangeInt(0, 5000))
+		}
+		if r.chance(15) {
 			m.SetSendType(acmelib.MessageSendType(r.below(5)))
-			m.SetDelayTime(r.rangeInt(1, 99))
-			m.SetStartDelayTime(r.rangeInt(1, 99))
+		}
+		if r.chance(15) {
+			m.SetDelayTime(r.rangeInt(0, 99))
+		}
+		if r.chance(15) {
+			m.SetStartDelayTime(r.rangeInt(0, 99))
 		}
 	}
 	for _, sg := range w.sigs {
